@@ -25,7 +25,7 @@ var Check = &ev.Check{
 	ID:    "C07",
 	Level: "model_checking",
 	Rule: "programs: every reference graph of n<=3 definitions (named N0..N2; in multi-file layouts also with two definitions of different files sharing one bare name) over kinds {typedef, struct(one optional field, optional default), enum, const, service(optional parent, one function)}, every definition choosing its references from " +
-		"{i32, string, each definition expressible from its file (same file or an included one), list<each definition>, one undefined name; constants: int, string, each constant, each enum item}, in layouts {one file; two files f0->f1 with every assignment of definitions to files; two files including each other; chain f0->f1->f2; siblings f0->{f1,f2}, f1->f2; diamond f0->{f1,f2}->f3}. " +
+		"{i32, string, each definition expressible from its file (same file or an included one), list<each definition>, one undefined name; constants: int, string, each constant, each enum item}, in layouts {one file; two files f0->f1 with every assignment of definitions to files; two files including each other; chain f0->f1->f2; siblings f0->{f1,f2}, f1->f2; diamond f0->{f1,f2}->f3; samebase f0->{f1,f2}, f2->d/f1.thrift (two files with one base name)}. " +
 		"schedules: for each program every map-iteration order at every `range`-over-map execution in package compile (all n! orders for n<=4 keys) with at most 1 (quick) / 2 (thorough) deviating range executions per compile, and every permutation of the definitions within each file. " +
 		"A state is a node of the choice tree (a prefix of order choices); a transition is one order choice; every execution is a run of the real compiler built from /repo's tree. " +
 		"Oracle: all executions of one program agree on success/failure and on the canonical dump of the module graph, and on success the dump equals ref/resolve's. distinct_nontrivial = programs with at least one reference between definitions.",
@@ -322,7 +322,20 @@ var layouts = []layout{
 		}
 		return [][]int{{3, 1, 2}, {3, 1, 1}}
 	}},
+	// f0 -> {f1, f2}, f2 -> d/f1.thrift: two different files with one base name
+	{"samebase", 4, [][]int{{1, 2}, {}, {3}, {}}, func(n int) [][]int {
+		switch n {
+		case 2:
+			return [][]int{{1, 3}, {3, 2}}
+		case 3:
+			return [][]int{{1, 3, 2}, {3, 1, 2}, {1, 3, 0}, {3, 3, 2}}
+		}
+		return nil
+	}},
 }
+
+// layoutPaths gives the files of a layout their paths (nil = /m/f<i>.thrift).
+var layoutPaths = map[string][]string{"samebase": {"", "", "", "d/f1.thrift"}}
 
 func typeRefs(n int, withList, withString bool, ok func(j int) bool) []resolve.TRef {
 	out := []resolve.TRef{{Base: "i32"}}
@@ -461,7 +474,7 @@ func enumerateQ(quick bool, yield func(progCase)) {
 							defs[i] = vs[i][idx[i]]
 							defs[i].File = as[i]
 						}
-						yield(progCase{Layout: lay.name, P: resolve.Prog{Defs: defs, NFiles: lay.nfiles, Includes: lay.includes}})
+						yield(progCase{Layout: lay.name, P: resolve.Prog{Defs: defs, NFiles: lay.nfiles, Includes: lay.includes, Paths: layoutPaths[lay.name]}})
 						// the same program with two definitions of different files sharing one bare name
 						for i := 0; i < n; i++ {
 							for j := i + 1; j < n; j++ {
@@ -471,7 +484,7 @@ func enumerateQ(quick bool, yield func(progCase)) {
 										names[k] = k
 									}
 									names[j] = i
-									yield(progCase{Layout: lay.name + "+samename", P: resolve.Prog{Defs: defs, NFiles: lay.nfiles, Includes: lay.includes, Names: names}})
+									yield(progCase{Layout: lay.name + "+samename", P: resolve.Prog{Defs: defs, NFiles: lay.nfiles, Includes: lay.includes, Names: names, Paths: layoutPaths[lay.name]}})
 								}
 							}
 						}
